@@ -1,6 +1,6 @@
 From Coq Require Import List Bool Arith NArith Permutation Sorted.
 From V.gen Require Consts.
-From V.C14 Require Import Model Proofs.
+From V.C14 Require Import Model Proofs U256.
 Import ListNotations.
 From V.C14 Require Import Properties.
 Check (C14_placement :
@@ -73,6 +73,79 @@ Check (C14_closest_exactly_k_closest :
   outside_class local (reach local K h) tgt ->
   let res := closest local (reach local K h) tgt k in
   let cands := filter n_addr (concat (reach local K h)) in
+  StronglySorted (dlt tgt) res /\ NoDup (map n_key res) /\
+  (forall n, In n res -> In n cands) /\
+  length res = Nat.min k (length cands) /\
+  (forall a b, In a res -> In b cands -> ~ In b res -> dlt tgt a b)).
+Check (C14_sort_filter_commute :
+  forall tgt (p : node -> bool) l, Forall (full tgt) l ->
+  filter p (sort_by_dist tgt l) = sort_by_dist tgt (filter p l)).
+Check (C14_code_order_equals_model :
+  forall tgt b b', same_but_dummies b b' -> Forall (full tgt) b' ->
+  bucket_closest_code tgt b' = bucket_closest tgt b).
+Check (C14_index_is_ilog2_xor :
+  forall a b, length a = length b ->
+  ilog2 (kxor a b) =
+  match u_ilog2 (N.of_nat (length a)) (N.lxor (val a) (val b)) with
+  | None => None | Some x => Some (N.to_nat x) end).
+Check (C14_distance_compare_u256 :
+  forall t a b, length a = length t -> length b = length t ->
+  klt (kxor t a) (kxor t b) = (N.lxor (val t) (val a) <? N.lxor (val t) (val b))%N).
+Check (C14_bit_is_testbit :
+  forall d i, bit (rev d) i = u_bit (val d) i).
+Check (C14_key_value_injective :
+  forall a b, length a = length b -> val a = val b -> a = b).
+Check (C14_bytes_distance_compare :
+  forall t a b,
+  Forall (fun x => (x < 256)%N) t -> Forall (fun x => (x < 256)%N) a -> Forall (fun x => (x < 256)%N) b ->
+  length a = length t -> length b = length t ->
+  bytes_lt (bytes_xor t a) (bytes_xor t b) =
+    (N.lxor (bytes_val t) (bytes_val a) <? N.lxor (bytes_val t) (bytes_val b))%N /\
+  bytes_lt (bytes_xor t a) (bytes_xor t b) =
+    klt (kxor (key_of_bytes t) (key_of_bytes a)) (kxor (key_of_bytes t) (key_of_bytes b))).
+Check (C14_bytes_value :
+  forall bs, Forall (fun x => (x < 256)%N) bs -> val (key_of_bytes bs) = bytes_val bs).
+Check (C14_kad_invariant :
+  forall local K h, Forall (wf_kop local) h -> Inv local K (k_table (kreach local K h))).
+Check (C14_kad_buckets :
+  forall local K h i, Forall (wf_kop local) h ->
+  let b := nth i (k_table (kreach local K h)) [] in
+  length b <= K /\ NoDup (map n_key (filter real b)) /\
+  forall n, In n b -> real n = true ->
+    length (n_key n) = length local /\ ilog2 (kxor local (n_key n)) = Some i /\ n_key n <> local).
+Check (C14_kad_step_preserves :
+  forall local K s o, Inv local K (k_table s) -> wf_kop local o ->
+  Inv local K (k_table (kstep local K s o))).
+Check (C14_kad_connected_kept :
+  forall local K s o j n,
+  In n (nth j (k_table s) []) -> protected n = true -> ~ In (n_key n) (kop_keys o) ->
+  In n (nth j (k_table (kstep local K s o)) [])).
+Check (C14_kad_connected_step :
+  forall local K s o j n,
+  In n (nth j (k_table s) []) -> n_conn n = Connected -> o <> KDisconnect (n_key n) ->
+  exists n', In n' (nth j (k_table (kstep local K s o)) []) /\ conn_still n n').
+Check (C14_kad_connected_until_disconnect :
+  forall local K h s j n,
+  In n (nth j (k_table s) []) -> n_conn n = Connected -> ~ In (KDisconnect (n_key n)) h ->
+  exists n', In n' (nth j (k_table (krun local K s h)) []) /\ conn_still n n').
+Check (C14_mention_downgrade_refuted_before_fix :
+  exists local K h s j n,
+    In n (nth j (k_table s) []) /\ n_conn n = Connected /\ ~ In (KDisconnect (n_key n)) h /\
+    Forall (wf_kop local) h /\
+    ~ exists n', In n' (nth j (k_table (krun_gen add_conn_orig local K s h)) []) /\ conn_still n n').
+Check (C14_reply_sound :
+  forall local K s tgt k n,
+  Inv local K (k_table s) -> In n (reply local s tgt k) ->
+  n_key n <> local /\ n_addr n = true /\ length (n_key n) = length local /\
+  exists i, In n (nth i (k_table s) []) /\ ilog2 (kxor local (n_key n)) = Some i).
+Check (C14_reply_at_most_k :
+  forall local s tgt k, length (reply local s tgt k) <= k).
+Check (C14_reply_exactly_k_closest :
+  forall local K h tgt k,
+  1 <= length local -> Forall (wf_kop local) h -> length tgt = length local ->
+  outside_class local (k_table (kreach local K h)) tgt ->
+  let res := reply local (kreach local K h) tgt k in
+  let cands := filter n_addr (concat (k_table (kreach local K h))) in
   StronglySorted (dlt tgt) res /\ NoDup (map n_key res) /\
   (forall n, In n res -> In n cands) /\
   length res = Nat.min k (length cands) /\
